@@ -11,6 +11,7 @@ import PolyVerif.Model.Ply
 import PolyVerif.Lemmas.Ply
 import PolyVerif.Lemmas.PlyCompose
 import PolyVerif.Lemmas.PlyNames
+import PolyVerif.Lemmas.PlyUV
 
 namespace PolyVerif
 namespace C04
@@ -39,41 +40,52 @@ theorem ply_readback_arrays_binary (c : Coding α) (cfg : WriterCfg) (m : MeshVa
   readBody_writeBody_arrays c cfg m body hf hwf h bl hbuilt hloc
 
 /-- THE COMPOSED ROUND TRIP, binary encodings, every writer configuration, every well-formed point cloud or triangle
-mesh without per-corner texture coordinates: what the reader makes of what the writer wrote satisfies `RoundTrips` —
+mesh, WITH OR WITHOUT per-corner texture coordinates: what the reader makes of what the writer wrote satisfies `RoundTrips` —
 the SAME predicate the `c04.holds.roundtrip` oracle evaluates: same topology, same primitive count, and at every
 primitive corner every attribute the configuration writes under names the reader recognises carries the stored-precision
 image (`quant`) of the original value.
 
-Guards, all explicit: binary format; `m.WF`; `writeBody` succeeded (implemented scalar types); a triangle mesh has no
-`TexCoord` (the unweld path is not covered); a point cloud's index buffer is `0..n-1` (the writer does not store it);
+Guards, all explicit: binary format; `m.WF`; `writeBody` succeeded (implemented scalar types); a point cloud's index buffer is `0..n-1` (the writer does not store it);
 fewer than 2³¹ vertices (indices are written as int32); and `ClaimOK` (that the header's property names are single
 words and pairwise distinct is no longer a hypothesis: `writeBody … = .ok` implies it, the writer rejects anything else):
 the claim stage, as witnesses — every reader `defaultReader` builds on this header is located where its names are, and
 every recognised writer has its reader, the last one with its key. -/
 theorem ply_roundtrip_binary_partial [BEq α] [LawfulBEq α] (c : Coding α) (cfg : WriterCfg) (m : MeshVal α) (body : Bytes)
     (hf : cfg.format ≠ .ascii) (hwf : m.WF = true) (h : writeBody c cfg m = .ok body)
-    (hnotex : ¬ (m.topo = .triangle ∧ hasTexCoord m = true))
     (hpoint : m.topo = .point → m.indices = (List.range m.attrLen).map Int.ofNat)
     (hsize : m.attrLen ≤ 2 ^ 31)
     (bl : List (Built × List Nat)) (hcl : ClaimOK cfg m bl) :
     ∃ back, readBody c defaultReader (writeHeader cfg m) body = .ok back ∧ RoundTrips c cfg m back = true := by
-  obtain ⟨recs, hrecs, hread⟩ := readBody_writeBody_mesh c cfg m body hf hwf h hnotex hpoint hsize bl hcl
   -- the header's property names are pairwise distinct: `Write` rejects anything else (writer.go:144-158)
   have hnd := (names_of_writeBody_ok c cfg m body h).2
-  exact ⟨_, hread, roundTrips_of_mesh c cfg m body hf hwf h hnotex hnd bl hcl recs hrecs⟩
+  by_cases huv : m.topo = .triangle ∧ hasTexCoord m = true
+  · -- per-corner texture coordinates: face `texcoord` list → unweld → TexCoord (`readback_uv`)
+    exact readback_uv c cfg m body hf hwf h huv.1 huv.2 hsize hnd bl hcl
+  · obtain ⟨recs, hrecs, hread⟩ := readBody_writeBody_mesh c cfg m body hf hwf h huv hpoint hsize bl hcl
+    exact ⟨_, hread, roundTrips_of_mesh c cfg m body hf hwf h huv hnd bl hcl recs hrecs⟩
+
+/-- the per-corner UV path on its own: a triangle mesh WITH `TexCoord` is written with a `texcoord` list of six floats per
+face (the three corners' UVs looked up through the index buffer); the reader collects them, unwelds the mesh — every corner
+becomes its own vertex carrying the stored-precision image of the welded source vertex' attributes — and attaches the
+float32 images of the corners' UVs as `TexCoord` -/
+theorem ply_roundtrip_binary_uv [BEq α] [LawfulBEq α] (c : Coding α) (cfg : WriterCfg) (m : MeshVal α) (body : Bytes)
+    (hf : cfg.format ≠ .ascii) (hwf : m.WF = true) (h : writeBody c cfg m = .ok body)
+    (htri : m.topo = .triangle) (htc : hasTexCoord m = true) (hsize : m.attrLen ≤ 2 ^ 31)
+    (bl : List (Built × List Nat)) (hcl : ClaimOK cfg m bl) :
+    ∃ back, readBody c defaultReader (writeHeader cfg m) body = .ok back ∧ RoundTrips c cfg m back = true :=
+  readback_uv c cfg m body hf hwf h htri htc hsize (names_of_writeBody_ok c cfg m body h).2 bl hcl
 
 /-- the same with the claim-stage guard as a DECIDABLE certificate: `claimCheck cfg m` runs the claim function on the
 header the writer emits, locates every built reader by name lookup and checks everything `ClaimOK` asks for
 (`claimCheck_sound`).  For a concrete configuration and attribute set the hypothesis is discharged by `decide`. -/
 theorem ply_roundtrip_binary_checked [BEq α] [LawfulBEq α] (c : Coding α) (cfg : WriterCfg) (m : MeshVal α) (body : Bytes)
     (hf : cfg.format ≠ .ascii) (hwf : m.WF = true) (h : writeBody c cfg m = .ok body)
-    (hnotex : ¬ (m.topo = .triangle ∧ hasTexCoord m = true))
     (hpoint : m.topo = .point → m.indices = (List.range m.attrLen).map Int.ofNat)
     (hsize : m.attrLen ≤ 2 ^ 31)
     (hcheck : (claimCheck cfg m).isSome = true) :
     ∃ back, readBody c defaultReader (writeHeader cfg m) body = .ok back ∧ RoundTrips c cfg m back = true := by
   obtain ⟨bl, hbl⟩ := Option.isSome_iff_exists.mp hcheck
-  exact ply_roundtrip_binary_partial c cfg m body hf hwf h hnotex hpoint hsize bl (claimCheck_sound cfg m bl hbl)
+  exact ply_roundtrip_binary_partial c cfg m body hf hwf h hpoint hsize bl (claimCheck_sound cfg m bl hbl)
 
 /-! non-vacuity: a welded triangle mesh with positions, 8-bit colours and a user scalar, default writer, big-endian;
 and a point cloud written by a custom configuration (double positions under `px py pz`, renamed scalar) -/
@@ -88,7 +100,7 @@ example : ∃ back, readBody toyCoding defaultReader (writeHeader (defaultWriter
       ((writeBody toyCoding (defaultWriter .be) exMesh).toOption.getD []) = .ok back ∧
     RoundTrips toyCoding (defaultWriter .be) exMesh back = true :=
   ply_roundtrip_binary_checked toyCoding (defaultWriter .be) exMesh _ (by decide) (by decide) (by decide) (by decide)
-    (by decide) (by decide) (by decide)
+    (by decide) (by decide)
 
 def exCloud : MeshVal Nat :=
   ⟨.point, [0, 1], [⟨3, positionAttr, [[1, 2, 3], [4, 5, 6]]⟩, ⟨1, nm "q", [[5], [6]]⟩], none⟩
@@ -98,7 +110,20 @@ def exCfg : WriterCfg := ⟨.le, [⟨nm "q", [nm "q"], .int⟩, ⟨positionAttr,
 example : ∃ back, readBody toyCoding defaultReader (writeHeader exCfg exCloud)
       ((writeBody toyCoding exCfg exCloud).toOption.getD []) = .ok back ∧ RoundTrips toyCoding exCfg exCloud back = true :=
   ply_roundtrip_binary_checked toyCoding exCfg exCloud _ (by decide) (by decide) (by decide) (by decide)
-    (by decide) (by decide) (by decide)
+    (by decide) (by decide)
+
+/-- a welded, UV-mapped quad (two triangles sharing an edge, one unreferenced vertex): the per-corner path -/
+def exUV : MeshVal Nat :=
+  ⟨.triangle, [0, 1, 2, 2, 1, 3],
+   [⟨3, positionAttr, [[1, 2, 3], [4, 5, 6], [7, 8, 9], [10, 11, 12], [13, 14, 15]]⟩,
+    ⟨2, texCoordAttr, [[0, 0], [1, 0], [0, 1], [1, 1], [7, 7]]⟩,
+    ⟨3, normalAttr, [[0, 0, 1], [0, 0, 1], [0, 0, 1], [0, 0, 1], [0, 1, 0]]⟩], none⟩
+
+example : ∃ back, readBody toyCoding defaultReader (writeHeader (defaultWriter .le) exUV)
+      ((writeBody toyCoding (defaultWriter .le) exUV).toOption.getD []) = .ok back ∧
+    RoundTrips toyCoding (defaultWriter .le) exUV back = true :=
+  ply_roundtrip_binary_checked toyCoding (defaultWriter .le) exUV _ (by decide) (by decide) (by rfl) (by decide)
+    (by decide) (by decide)
 
 /-- the rejected branch: a name with a blank, and a name used twice (user scalar `x` next to Position), make the write
 fail — nothing unreadable is produced -/
